@@ -156,7 +156,25 @@ func c05WriteSize(rc *simrt.RunCtx) int {
 }
 
 // stream content: instance (side, k) writes hdr(16) followed by gen(side,k)
-func streamGen(side byte, k int) *prng { return newPrng(uint64(side)<<40 | uint64(k)<<8 | 0x5d) }
+// bytegen yields one fixed pseudo-random byte stream regardless of how it is
+// cut into pieces (writer and reader cut it differently).
+type bytegen struct {
+	p   *prng
+	buf []byte
+}
+
+func (g *bytegen) bytes(n int) []byte {
+	for len(g.buf) < n {
+		g.buf = append(g.buf, g.p.bytes(4096)...)
+	}
+	out := append([]byte(nil), g.buf[:n]...)
+	g.buf = g.buf[n:]
+	return out
+}
+
+func streamGen(side byte, k int) *bytegen {
+	return &bytegen{p: newPrng(uint64(side)<<40 | uint64(k)<<8 | 0x5d)}
+}
 
 func mkHeader(side byte, k, total int) []byte {
 	h := make([]byte, 16)
@@ -260,7 +278,7 @@ func (st *stack) runInstance(sd *stackSide, in *instance) {
 	go func() { // reader
 		defer iwg.Done()
 		var hdr []byte
-		var pgen *prng
+		var pgen *bytegen
 		for {
 			buf := make([]byte, st.readSize(sd.name))
 			n, err := in.conn.Read(buf)
